@@ -1,6 +1,6 @@
 (* C14 extraction: ExtrOcamlBasic only; N / Z / positive stay Coq's binary datatypes. *)
 From Coq Require Import NArith ZArith List.
-From ZV.Mem Require Import Cwksp Estimate DBuffers History LevelDefs.
+From ZV.Mem Require Import Cwksp Estimate DBuffers History LevelDefs DOwner CDictLevel C14Round2.
 Require Import ExtrOcamlBasic.
 Extraction "Extract/out/c14model.ml"
   N.add N.sub N.mul N.div_eucl N.eqb Z.opp Z.of_N
@@ -18,4 +18,7 @@ Extraction "Extract/out/c14model.ml"
   LevelDefs.need_simple LevelDefs.need_compress2 LevelDefs.need_stream
   History.static_history_hops History.static_history History.history History.history_final
   DBuffers.decodingBufferSize_internal DBuffers.estimateDStreamSize DBuffers.estimateDDictSize
-  DBuffers.dstream_load_header DBuffers.dstate0 DBuffers.frame_windowSize.
+  DBuffers.dstream_load_header DBuffers.dstate0 DBuffers.frame_windowSize
+  DOwner.down_step DOwner.down0 DOwner.sizeof_DCtx_full DOwner.live_after DOwner.free_events DOwner.hs_count
+  DOwner.estimateDStreamSize_fromFrame CDictLevel.cdict_level_recipe CDictLevel.getCParams_public
+  C14Round2.need_advanced_raw.
